@@ -34,6 +34,7 @@ type ringAnalysis struct {
 	entries map[*ssa.Function]uint32
 	exits   map[*ssa.Function]map[int]uint32
 	over    map[string]string // site key -> description
+	overIn  map[*ssa.Function]bool
 	maxSeen int
 	changed bool
 }
@@ -82,6 +83,7 @@ func (a *ringAnalysis) applyCall(ci ssa.CallInstruction, in uint32, fn *ssa.Func
 				if nj >= N {
 					nj = N
 					if j < N {
+						a.overIn[fn] = true
 						key := fmt.Sprintf("%s/backup@%s", fname(fn), a.c.at(ci))
 						a.over[key] = fmt.Sprintf("backup with %d items already pending (entered %s with %d pending)", j, fname(fn), jin)
 					}
@@ -103,6 +105,11 @@ func (a *ringAnalysis) applyCall(ci ssa.CallInstruction, in uint32, fn *ssa.Func
 				}
 				if ex := a.exits[callee]; ex != nil {
 					out |= ex[j]
+					// name the caller of a function in which the window is exceeded (one level up)
+					if j < N && ex[j]&bit(N) != 0 && a.overIn[callee] {
+						key := fmt.Sprintf("%s/call %s@%s", fname(fn), callee.Name(), a.c.at(ci))
+						a.over[key] = fmt.Sprintf("calls %s with %d items pending, which exceeds the window (entered %s with %d pending)", callee.Name(), j, fname(fn), jin)
+					}
 				}
 			}
 		}
@@ -152,6 +159,7 @@ func (a *ringAnalysis) run() (entryStates uint32) {
 	a.entries = map[*ssa.Function]uint32{}
 	a.exits = map[*ssa.Function]map[int]uint32{}
 	a.over = map[string]string{}
+	a.overIn = map[*ssa.Function]bool{}
 	E := bit(0)
 	roots := a.spec.roots()
 	for iter := 0; iter < 200; iter++ {
